@@ -161,33 +161,48 @@ func VC13Relay() {
 }
 
 // vReentrySink detects two goroutines inside the sink at once.
+type vInsideCounter struct{ inside int }
+
+// vReentrySink detects two goroutines inside the locked region (any of its sinks) at once.
 type vReentrySink struct {
-	inside int
+	c      *vInsideCounter
 	writes int
 	syncs  int
 }
 
 func (s *vReentrySink) Write(p []byte) (int, error) {
-	s.inside++
-	vrt.Assert("writes-and-syncs-mutually-exclusive", s.inside == 1)
+	s.c.inside++
+	vrt.Assert("writes-and-syncs-mutually-exclusive", s.c.inside == 1)
 	vrt.Yield()
 	s.writes++
-	s.inside--
+	s.c.inside--
 	return len(p), nil
 }
 func (s *vReentrySink) Sync() error {
-	s.inside++
-	vrt.Assert("writes-and-syncs-mutually-exclusive", s.inside == 1)
+	s.c.inside++
+	vrt.Assert("writes-and-syncs-mutually-exclusive", s.c.inside == 1)
 	vrt.Yield()
 	s.syncs++
-	s.inside--
+	s.c.inside--
 	return nil
 }
 
-//verif: prop=C13 bounds="two goroutines doing Write || Write and Write || Sync through Lock(sink); the sink yields inside its critical section; every schedule at synchronisation points (preemption bound 2); happens-before race monitor on"
+//verif: prop=C13 bounds="two goroutines doing Write || Write and Write || Sync through Lock(sink), Lock(Lock(sink)), Lock(multi(s1,s2)) and Lock(multi(Lock(s1),Lock(s2))): at most one goroutine is inside any of the sinks at a time; the sink yields inside its critical section; every schedule at synchronisation points (preemption bound 2); happens-before race monitor on"
 func VC13LockExclusive() {
-	s := &vReentrySink{}
-	ws := Lock(s)
+	shared := &vInsideCounter{}
+	s1, s2 := &vReentrySink{c: shared}, &vReentrySink{c: shared}
+	var ws WriteSyncer
+	nsinks := 1
+	switch vrt.Choice("topology", 4) {
+	case 0:
+		ws = Lock(s1)
+	case 1:
+		ws = Lock(Lock(s1))
+	case 2:
+		ws, nsinks = Lock(NewMultiWriteSyncer(s1, s2)), 2
+	case 3: // every sink locked on its own as well: the outer Lock must still serialise the whole fan-out
+		ws, nsinks = Lock(NewMultiWriteSyncer(Lock(s1), Lock(s2))), 2
+	}
 	var wg sync.WaitGroup
 	wg.Add(2)
 	second := vrt.Choice("second", 2)
@@ -201,7 +216,7 @@ func VC13LockExclusive() {
 		}
 	}()
 	wg.Wait()
-	vrt.Assert("all-operations-ran", s.writes+s.syncs == 2)
+	vrt.Assert("all-operations-ran", s1.writes+s1.syncs+s2.writes+s2.syncs == 2*nsinks)
 }
 
 //verif: prop=C13 bounds="BufferedWriteSyncer of Size 1..4 over a recording sink: two writes of 0..6 symbolic bytes each (buffered, exactly fitting, larger than the buffer) report (len(p), nil) and leave the caller's slice untouched"
